@@ -5,10 +5,14 @@ for sid in sys.argv[1:]:
     m = json.load(open(f"/verif/seeded/{sid}/meta.json"))
     det = m.get("detection", {})
     keys = ", ".join(f"`{k[:100]}`" for k in det.get("violation_keys", [])[:2])
-    by = m["property"] if det.get("result") == "DETECTED" else "**MISSED**"
-    for p, c in det.get("cross", {}).items():
-        if c.get("result") == "DETECTED":
-            by += f" (also {p})"
+    cross = [p for p, c in det.get("cross", {}).items() if c.get("result") == "DETECTED"]
+    if det.get("result") == "DETECTED":
+        by = m["property"] + (f" (also {', '.join(cross)})" if cross else "")
+    elif cross:
+        by = "**" + ", ".join(cross) + "** (not " + m["property"] + ")"
+        keys = ", ".join(f"`{k[:100]}`" for p in cross for k in det["cross"][p].get("violation_keys", [])[:1])
+    else:
+        by = "**MISSED**"
     summ = m["summary"].replace("|", "/").replace("\n", " ")[:230]
     needs = m.get("needs", "").replace("|", "/").replace("\n", " ")[:200]
     note = m.get("note", "")
